@@ -24,7 +24,9 @@ def run(ctx):
         nontrivial=lambda r, kv: r["rows"] + int(kv.get("deliveries", "0")),
         # late messages of stored prior epochs (both storage providers, random write / reload / crash points, random epoch order):
         # an accepted late message is never accepted again (oracle tagged C05 in the repository harness)
-        also=[(["c06", "--focus", "C05"], "repo", "c06all")])
+        also=[(["c06", "--focus", "C05"], "repo", "c06all"),
+              # the history generator's own C05 oracle (an application message delivered twice is accepted once)
+              (["hist", "--histories", "20" if ctx.tier != "thorough" else "200", "--focus", "C05"], None, "hist")])
 
 
 def replay(ctx, path):
